@@ -28,8 +28,13 @@ def setters_on(f, obj):
 def len_of_obj(e, obj):
     """e == len(packet(&obj)) possibly through casts / try_into / unwrap"""
     e = peel(e, casts=True)
-    while is_call(e, r'try_into$|unwrap$'):
-        e = peel(e[2][0], casts=True)
+    while True:
+        if is_call(e, r'try_into$|unwrap$'):
+            e = peel(e[2][0], casts=True)
+        elif isinstance(e, tuple) and e[0] == 'bin' and ((e[1] == 'Rem' and const_val(e[3]) in (1 << 16, 1 << 32)) or (e[1] == 'BitAnd' and const_val(e[3]) in (0xffff, 0xffffffff))):
+            e = peel(e[2], casts=True)      # the reduction that `as u16` / `as u32` performs anyway, spelled out
+        else:
+            break
     if not is_call(e, r'(\[T\]>|Vec::<[^>]*>)::len$'):
         return False
     # len of the object's bytes: packet(&obj), possibly through to_vec / deref / a reference
@@ -221,11 +226,10 @@ def run(ctx):
     rep.check(r2, ok, 'udp::repl:length', 'UDP length <- len(packet(self)) on every path to a reply: %s' % ok, udp.loc(sl[0][0]) if sl else '')
     ow = udp.calls(r"MutableUdpPacket::<'a>::owned$")
     v = peel(udp.objview(udp.arg(ow[0][0], 0), ow[0][0]), unwraps=False) if len(ow) == 1 else None
-    ok = v is not None and is_call(v, r'\[T\]>::concat$')
-    if ok:
-        arr = peel(v[2][0], unwraps=False)
-        ok = isinstance(arr, tuple) and arr[0] == 'agg' and len(arr[2]) == 2 and is_call(peel(arr[2][0], unwraps=False), r'from_elem$') and \
-            is_call(peel(peel(arr[2][0], unwraps=False)[2][1]), r'UdpPacket::<.a>::minimum_packet_size$') and is_call(peel(arr[2][1]), r'^proto::repl$')
+    # header zeros, then the application reply: [hdr, repl].concat(), or a zeroed Vec that the reply is appended to (buf_segments_at)
+    segs_ = buf_segments_at(udp, ow[0][0], 0) if len(ow) == 1 else None
+    ok = v is not None and segs_ is not None and len(segs_) == 2 and segs_[0][0] == 'zeros' and is_call(segs_[0][1], r'UdpPacket::<.a>::minimum_packet_size$') and \
+        segs_[1][0] == 'data' and is_call(peel(segs_[1][1]), r'^proto::repl$')
     rep.check(r2, ok, 'udp::repl:buffer', 'UDP buffer = 8-byte header ++ application reply: %s' % (short(v)[:120] if v else None), udp.loc(ow[0][0]) if ow else '')
     tcp = F.fn('layer_4::tcp::repl')
     rep.saw(tcp)
@@ -239,6 +243,15 @@ def run(ctx):
         vals = [const_val(f.arg(b, 1)) for b, _ in s]
         rep.check(r4, bool(vals) and all(v_ == want for v_ in vals), key, '%s constants %s (required %s at every site)' % (name, vals, want), f.loc(s[0][0]) if s else '')
         return s
+    # header fields nobody writes (identification, fragment offset, urgent pointer, reserved bits, traffic class ...) are zero
+    # because every reply buffer starts as zeros: each vec![c; n] in the layer functions is filled with 0
+    for fid_ in ['layer_2::reply', 'layer_2::arp::repl', 'layer_3::ipv4::repl', 'layer_3::ipv6::repl', 'layer_4::icmpv4::repl', 'layer_4::icmpv6::repl',
+                 'layer_4::icmpv6::nd_ns_repl', 'layer_4::tcp::repl', 'layer_4::udp::repl']:
+        g_ = F.fn(fid_)
+        rep.saw(g_)
+        fills = [(b_, const_val(g_.arg(b_, 0))) for b_, _ in g_.calls(r'vec::from_elem$')]
+        if fills:
+            rep.check(r4, all(c_ == 0 for _, c_ in fills), 'zero-filled:' + fid_, 'reply buffers are allocated as zeros: fill values %s' % [c_ for _, c_ in fills], g_.loc(fills[0][0]))
     const_site(v4, 'set_ttl', 64, 'ipv4:ttl')
     const_site(v4, 'set_flags', 2, 'ipv4:dont-fragment')
     const_site(tcp, 'set_window', 65535, 'tcp:window')
@@ -257,7 +270,7 @@ def run(ctx):
             rep.check(r5, bool(blocks) and not miss, '%s:%s' % (f.id, n), 'reply reachable without %s: %s' % (n, bool(miss)), f.loc(blocks[0]) if blocks else '')
     # hop limit
     hs = v6.calls(r"set_hop_limit$")
-    vals = sorted(const_val(v6.arg(b, 1)) for b, _ in hs)
+    vals = sorted((const_val(v6.arg(b, 1)) for b, _ in hs), key=lambda x: -1 if x is None else x)
     ok = vals == [64, 255]
     det = 'set_hop_limit constants %s' % vals
     na = []
